@@ -39,7 +39,9 @@
 //     they are loop-carried like any other local); s as an ARGUMENT of a callback is PRESENTED: `gldbytes (mb_ld mem) data len`
 //     (Lib/GoMb.v: no access for len = 0, otherwise ONE load of len bytes, as a byte list; len taken as unsigned) and
 //     recorded as GBytes; any other use of s is rejected;
-//   - a callback without results as a statement: the event only.
+//   - a callback without results as a statement: the event only;
+//   - a "world" function WITH a receiver of type *T (T a listed struct: `func (i *FramebufferInfo) RGBColorInfo()`): the
+//     receiver is an address parameter after the world; `return nil` for a result of type *T is 0.
 //
 // Everything here is guarded by mbOn(): the output for configs without "memstructs" is unchanged.
 package main
@@ -622,6 +624,15 @@ func (tr *translator) mbStmt(stmts []ast.Stmt, en *env, k func(*env) string, res
 		return "", false
 	}
 	switch s := stmts[0].(type) {
+	case *ast.ReturnStmt:
+		// return nil for a result of type *T: the address 0 (rewritten in the syntax tree; the statement is then translated as usual)
+		for i, r := range s.Results {
+			if id, ok := r.(*ast.Ident); ok && id.Name == "nil" && i < len(tr.results) && strings.HasPrefix(tr.results[i].named, "*") && tr.results[i].width == 64 {
+				if _, shadow := en.vars["nil"]; !shadow {
+					s.Results[i] = &ast.BasicLit{Kind: token.INT, Value: "0"}
+				}
+			}
+		}
 	case *ast.DeclStmt:
 		gd, ok := s.Decl.(*ast.GenDecl)
 		if !ok || gd.Tok != token.VAR {
@@ -841,6 +852,27 @@ func mbRewriteHeader(n ast.Node, h, s string) {
 		}
 		return true
 	})
+}
+
+// mbRecv: a "world" function whose receiver is a pointer to a listed struct: the receiver is an address
+func mbRecv(tr *translator, decl *ast.FuncDecl, en *env, params *[]string) bool {
+	if !mbOn() || !tr.fn.World || decl.Recv == nil || len(decl.Recv.List) != 1 {
+		return false
+	}
+	r := decl.Recv.List[0]
+	st, ok := r.Type.(*ast.StarExpr)
+	if !ok {
+		return false
+	}
+	id, ok := st.X.(*ast.Ident)
+	if !ok || !mbIsStruct(id.Name) || len(r.Names) != 1 {
+		return false
+	}
+	tr.mon = "world"
+	tr.ptrRecv = "world"
+	*params = append(*params, "("+v("world")+" : "+recName(structPkg["world"], "world")+")", "("+v(r.Names[0].Name)+" : N)")
+	en.vars[r.Names[0].Name] = mbPtrT(id.Name)
+	return true
 }
 
 // mbParam: a parameter of a listed function type is a seam (no Coq parameter for the function value)
